@@ -85,8 +85,24 @@ func withClosures(fn *ssa.Function) []*ssa.Function {
 
 // calleeName returns the qualified name of a statically resolved callee
 // ("sync.(*WaitGroup).Done", "fmt.Errorf"), the builtin's name, or "".
+// isHTTPDo: an interface method with the shape of (*http.Client).Do — a module-declared
+// `interface{ Do(*http.Request) (*http.Response, error) }` stands for the client it abstracts.
+func isHTTPDo(c *ssa.CallCommon) bool {
+	if !c.IsInvoke() || c.Method.Name() != "Do" {
+		return false
+	}
+	sig, ok := c.Method.Type().(*types.Signature)
+	if !ok || sig.Params().Len() != 1 || sig.Results().Len() != 2 {
+		return false
+	}
+	return sig.Params().At(0).Type().String() == "*net/http.Request" && sig.Results().At(0).Type().String() == "*net/http.Response"
+}
+
 func calleeName(c *ssa.CallCommon) string {
 	if c.IsInvoke() {
+		if isHTTPDo(c) {
+			return "(*net/http.Client).Do"
+		}
 		return "invoke:" + c.Method.FullName()
 	}
 	if b, ok := c.Value.(*ssa.Builtin); ok {
